@@ -21,7 +21,7 @@ func init() {
 
 // deepShape draws deeper and wider value trees than the pipeline scenario.
 func deepShape(r interface{ IntN(int) int }, depth, maxDepth int) string {
-	leaves := "sbintfdgvSaeB"
+	leaves := "sbinItfdgvSaeB"
 	if depth >= maxDepth || r.IntN(3) != 0 {
 		if depth == 0 {
 			return string(leaves[r.IntN(len(leaves))])
